@@ -32,6 +32,7 @@ pub(crate) trait CKKSConjugateDefault<BE: Backend> {
         Scratch<BE>: ScratchTakeCore<BE>,
     {
         let offset = dst.offset_unary(src);
+        let log_budget = checked_log_budget_sub("conjugate", src.log_budget(), offset)?;
         if offset != 0 {
             self.glwe_lsh(dst, src, offset, scratch);
             self.glwe_automorphism_assign(dst, key, scratch);
@@ -40,7 +41,7 @@ pub(crate) trait CKKSConjugateDefault<BE: Backend> {
         }
 
         dst.meta = src.meta();
-        dst.meta.log_budget = checked_log_budget_sub("conjugate", dst.log_budget(), offset)?;
+        dst.meta.log_budget = log_budget;
         Ok(())
     }
 
